@@ -10,7 +10,7 @@ import (
 // only the requests of value 0: the decisions for value 0 must agree (independence), and every
 // value's admitted tokens must stay inside the envelope of the statement.
 
-var verifC05Grid = []struct{ thr, burst, dur, sthr int64 }{{1, 0, 1, 2}, {3, 2, 1, 1}, {10, 0, 2, 4}, {5, 5, 60, 5}}
+var verifC05Grid = []struct{ thr, burst, dur, sthr int64 }{{1, 0, 1, 2}, {3, 2, 1, 1}, {10, 0, 2, 4}, {5, 5, 60, 5}, {3, 0, 1, 0}}
 
 type verifAdm struct {
 	t    int64
